@@ -10,7 +10,7 @@ func factsHnsw() {
 		unrec("handover_skips_deleted", "bool", "Remove not found")
 		unrec("handover_falls_back", "bool", "Remove not found")
 	} else {
-		i := strings.Index(rm, "for neighbor, distance := range vertex.edges[l] {")
+		i := strings.Index(rm, "for neighbor, distance := range current.edges[l] {")
 		j := strings.Index(rm, "if distance < minDistance {")
 		skip := i >= 0 && j > i && strings.Contains(rm[i:j], "if neighbor.isDeleted() { continue }")
 		if i < 0 || j < 0 {
@@ -22,6 +22,9 @@ func factsHnsw() {
 		cas := strings.Index(rm, "atomic.CompareAndSwapPointer(&this.entrypoint, currEntrypoint, unsafe.Pointer(closestNeighbor))")
 		k := strings.Index(rm, "closestNeighbor = this.highestRemainingVertex()")
 		known("handover_falls_back", "bool", b(fb && k >= 0 && cas > k), "Remove: with no live linked neighbour any remaining vertex of the highest level becomes the entry point")
+		rv := strings.Index(rm, "this.removeVertex(id)")
+		lp := strings.Index(rm, "for { currEntrypoint := atomic.LoadPointer(&this.entrypoint) current := (*hnswVertex)(currEntrypoint) if current == nil || !current.isDeleted() { break }")
+		known("handover_repeats_while_tombstoned", "bool", b(rv >= 0 && lp > rv && cas > lp), "Remove: after the tombstone, the hand-over is repeated while the entry point is a tombstoned vertex")
 	}
 	sl, f2 := bodyText("index/hnsw.go", "Hnsw", "searchLevel")
 	gr, f3 := bodyText("index/hnsw.go", "Hnsw", "greedyClosestNeighbor")
@@ -32,6 +35,17 @@ func factsHnsw() {
 		ok := strings.Contains(sl, "for neighbor, _ := range candidate.edges[level] { if neighbor.isDeleted() { continue }") &&
 			strings.Contains(gr, "for neighbor, _ := range entrypoint.edges[level] { if neighbor.isDeleted() { continue }")
 		known("search_skips_deleted", "bool", b(ok), "searchLevel and greedyClosestNeighbor skip tombstoned neighbours")
+		known("search_skips_dead_entry", "bool", b(strings.Contains(sl, "resultVertices := utils.NewMaxPriorityQueue() if !entrypoint.isDeleted() {") && strings.Contains(sl, "resultVertices.Push(pqItem) }") &&
+			strings.Contains(sl, "lowerBound := float32(math.MaxFloat) if resultVertices.Len() > 0 { lowerBound = resultVertices.Peek().Priority() }")), "searchLevel does not put a tombstoned entry point into its results")
+		ins, fi := bodyText("index/hnsw.go", "Hnsw", "Insert")
+		known("insert_promotes_by_cas_loop", "bool", b(fi != nil &&
+			strings.Contains(ins, "for { current := atomic.LoadPointer(&this.entrypoint) if current != nil && vertex.level <= (*hnswVertex)(current).level { break } if atomic.CompareAndSwapPointer(&this.entrypoint, current, unsafe.Pointer(vertex)) { break } }") &&
+			!strings.Contains(ins, "CompareAndSwapPointer(&this.entrypoint, this.entrypoint") && !strings.Contains(ins, "vertex.setLevel(") &&
+			strings.Contains(ins, "if entrypoint == nil {")), "Insert: the entry point is promoted by a compare-and-swap loop on the loaded value; a published vertex is not re-sized; a vanished entry point is handled")
+		sv, f5 := bodyText("index/hnsw.go", "Hnsw", "storeVertex")
+		rmv, f6 := bodyText("index/hnsw.go", "Hnsw", "removeVertex")
+		known("membership_under_shard_lock", "bool", b(f5 != nil && f6 != nil && strings.Contains(sv, "defer mu.Unlock() mu.Lock()") && strings.Contains(rmv, "defer mu.Unlock() mu.Lock()") &&
+			strings.Contains(rmv, "delete(m, id)") && strings.Index(rmv, "vertex.setDeleted()") > strings.Index(rmv, "delete(m, id)")), "storeVertex / removeVertex change the id map, the counters and the tombstone under the shard's lock")
 		sc := strings.Contains(sl, "distance := this.space.Distance(query, neighbor.vector)") &&
 			strings.Contains(sl, "pqItem := utils.NewPriorityQueueItem(distance, neighbor)") &&
 			strings.Contains(sl, "entrypointDistance := this.space.Distance(query, entrypoint.vector)")
